@@ -13,18 +13,14 @@ import sym
 import mir
 import tables
 import gtables
+import itermodels
 from common import Inconclusive, Replay, VERIF
 from smt import Q
 
 
 def model_slice_iter(engine, st, fr, callee, args, ops):
-    a = args[0]
-    v = sym._deref_arg(engine, st, a) if isinstance(a, sym.Ref) else a
-    if isinstance(v, sym.Adt) and v.ty == "TableSuffix":
-        return sym.Adt("SliceIter", None, [v.fields[0], v.fields[1]])
-    if isinstance(a, sym.Adt) and a.ty == "TableSuffix":
-        return sym.Adt("SliceIter", None, [a.fields[0], a.fields[1]])
-    return sym.Adt("SliceIter", None, [a, 0])
+    """`table.iter()` / `table[start..].iter()`: the standard concrete iterator (lib/itermodels.py) over references to the entries"""
+    return itermodels.m_slice_iter(engine, st, fr, callee, args, ops)
 
 
 def model_range_from(engine, st, fr, callee, args, ops):
@@ -54,29 +50,27 @@ def model_range_from(engine, st, fr, callee, args, ops):
         if v > n:
             alts.append((c, sym.Panic(("slice start index out of range", fr.fn.name, fr.bb))))
         else:
-            alts.append((c, sym.Adt("TableSuffix", None, [base_ref, v])))
+            alts.append((c, sym.Adt("Slice", None, [base_ref, v])))
     return alts[0][1] if len(alts) == 1 and alts[0][0] is True else sym.Fork(alts)
 
 
-def model_find(engine, st, fr, callee, args, ops):
-    """<slice::Iter as Iterator>::find(closure): first element for which the closure (run from its MIR) holds."""
-    it = sym._deref_arg(engine, st, args[0])
+def _first_match(engine, st, args, by_ref, result):
+    """first element of the iterator for which the closure (run from its MIR) holds -> result(index, element reference)"""
+    items = itermodels._citer(engine, st, args[0])
     clo = args[1]
-    sl = it.fields[0]
-    first = it.fields[1] if len(it.fields) > 1 else 0
-    arr = sym._deref_arg(engine, st, sl)
     fn = engine.resolve_fn(clo.name if isinstance(clo, sym.FnV) else str(clo))
     # closure value lives in a fresh cell so that `&mut closure` can be passed
     cell = ("h", "closure%d" % st.uid)
     st.mem[cell] = clo
     alts = []
-    for i, item in enumerate(arr.items):
-        if i < first:
-            continue
-        item_ref = sym.Ref(sl.root, sl.path + (("index_c", i),))
-        cellr = ("h", "itemref%d_%d" % (st.uid, i))
-        st.mem[cellr] = item_ref
-        res = engine.call_pure(st, fn, [sym.Ref(cell, (), True), sym.Ref(cellr, ())])
+    for i, item_ref in enumerate(items):
+        arg = item_ref
+        cellr = None
+        if by_ref:
+            cellr = ("h", "itemref%d_%d" % (st.uid, i))
+            st.mem[cellr] = item_ref
+            arg = sym.Ref(cellr, ())
+        res = engine.call_pure(st, fn, [sym.Ref(cell, (), True), arg])
         conds = []
         for r in res:
             if r.status != "return":
@@ -84,10 +78,21 @@ def model_find(engine, st, fr, callee, args, ops):
             extra = r.pc[len(st.pc):]
             conds.append(z3.And(*(extra + [r.value])) if extra else r.value)
         c = z3.simplify(z3.Or(*conds)) if len(conds) > 1 else z3.simplify(conds[0])
-        alts.append((c, sym.Adt("Option", "Some", [item_ref])))
-        del st.mem[cellr]
-    st.events.append(("find", len(arr.items)))
+        alts.append((c, sym.Adt("Option", "Some", [result(i, item_ref)])))
+        if cellr is not None:
+            del st.mem[cellr]
+    st.events.append(("find", len(items)))
     return sym.FirstMatch(alts, sym.Adt("Option", "None", []))
+
+
+def model_find(engine, st, fr, callee, args, ops):
+    """<slice::Iter as Iterator>::find(closure): first element for which the closure (run from its MIR) holds."""
+    return _first_match(engine, st, args, True, lambda i, r: r)
+
+
+def model_position(engine, st, fr, callee, args, ops):
+    """<slice::Iter as Iterator>::position(closure): index (from the iterator's start) of the first such element."""
+    return _first_match(engine, st, args, False, lambda i, r: z3.BitVecVal(i, 64))
 
 
 def closure_name_of(callee):
@@ -98,6 +103,7 @@ MODELS = [
     (r"Index<(std::ops::)?RangeFrom<usize>>>::index$", model_range_from),
     (r"^core::slice::<impl \[.*\]>::iter$", model_slice_iter),
     (r"as Iterator>::find::<\{closure@", model_find),
+    (r"as Iterator>::position::<\{closure@", model_position),
 ]
 
 SPECIAL_KINDS = {"IdResultType", "IdResult", "LiteralContextDependentNumber", "PairLiteralIntegerIdRef",
@@ -185,7 +191,7 @@ def symbolic_lookups(ctx, q, rp, eng0, mf, ms, registry, key, hint, width, ename
         raise Inconclusive("lookup_opcode of %s table: %d candidates" % (key, len(cands)))
     fn = mf.parse_item(cands[0][2])
     n = z3.BitVec("n", width)
-    eng = sym.Engine([mf, ms], registry, models=MODELS, eager=True, max_steps=10 ** 7)
+    eng = sym.Engine([mf, ms], registry, models=MODELS, eager=True, max_steps=10 ** 7, loop_bound=len(entries) + 2)   # a lookup written as a plain loop runs once per entry
     eng._const_cache, eng._const_mem = eng0._const_cache, getattr(eng0, "_const_mem", {})
     res = eng.run(fn, [n])
     ctx.functions.update(eng.stats.functions)
@@ -258,12 +264,16 @@ def symbolic_lookups(ctx, q, rp, eng0, mf, ms, registry, key, hint, width, ename
             ctx.ob("%s/entry-reachable/%s" % (key, e["opname"]), None, "not reached by the symbolic lookup, but the compiled crate returns it")
     # ---- get(op) is total on declared opcodes
     gc = [c for c in mf.find("get") if "closure" not in c[0] and "syntax.rs" in c[0] and uses_static(mf, c[2], hint)]
+    if not gc:
+        # `get` may go through `lookup_opcode` instead of touching the table itself: take the `get` of the same impl block
+        impl_ = cands[0][0].rsplit("::", 1)[0]
+        gc = [c for c in mf.find("get") if "closure" not in c[0] and c[0].rsplit("::", 1)[0] == impl_]
     if len(gc) != 1:
         raise Inconclusive("get of %s table: %d candidates" % (key, len(gc)))
     gfn = mf.parse_item(gc[0][2])
     op = z3.BitVec("op", 32)
     validop = z3.Or(*[op == z3.BitVecVal(v, 32) for v in D])
-    eng = sym.Engine([mf, ms], registry, models=MODELS, eager=True, max_steps=10 ** 7)
+    eng = sym.Engine([mf, ms], registry, models=MODELS, eager=True, max_steps=10 ** 7, loop_bound=len(entries) + 2)   # a lookup written as a plain loop runs once per entry
     eng._const_cache, eng._const_mem = eng0._const_cache, getattr(eng0, "_const_mem", {})
     res = eng.run(gfn, [op], pc=[validop])
     ctx.functions.update(eng.stats.functions)
